@@ -403,6 +403,10 @@ func (s *Super) runShard(shard, of int) {
 			if (r.T == "budget" || r.T == "mem") && r.Unit == j.dead {
 				hasRec = true
 			}
+			if r.T == "unit_budget" && r.Unit == j.dead {
+				hasRec = true
+				s.Inconclusive(fmt.Sprintf("unit %s abandoned after %.0f CPU-s / %d bytes resident: the harness's own work ran away there (not a verdict about the library)", r.Unit, r.CPU, r.V))
+			}
 		}
 		if !hasRec {
 			// hard crash (fatal error, stack overflow, out of memory): pin the case
@@ -975,6 +979,10 @@ func (s *Super) runUnitsInOwnProcesses(jobs int) {
 				for _, r := range j.recs {
 					if r.T == "budget" || r.T == "mem" {
 						hasRec = true
+					}
+					if r.T == "unit_budget" {
+						hasRec = true
+						s.Inconclusive(fmt.Sprintf("unit %s abandoned after %.0f CPU-s: the harness's own work ran away there", r.Unit, r.CPU))
 					}
 				}
 				if !hasRec {
